@@ -30,6 +30,32 @@ class IArr:
 def fi(name):
     return z3.Function(f'{name}{next(_n)}', I, I)
 
+
+class MArr(IArr):
+    """item-assigned 1-D integer array (the intermediate charges): element function updated functionally by stores"""
+    def havoc(self):
+        return MArr(fi('hq'), self.n, {})
+
+
+class SArr(ZArr):
+    """matrix with a *support* predicate: nz(i, j) over-approximates `entry (i, j) may be non-zero`.
+    Used for the block-sparsity clauses; values of the entries are not modelled here."""
+    is_sarr = True
+    def __init__(self, shape, kind, nz, name=None):
+        ZArr.__init__(self, shape, kind, None, name)
+        self.nz = nz
+    def havoc(self):
+        return SArr(self.shape, self.kind, z3.Function(f'hnz{next(_n)}', I, I, z3.BoolSort()))
+
+def fresh_nz(name='nz'):
+    return z3.Function(f'{name}{next(_n)}', I, I, z3.BoolSort())
+
+def nz_of(v):
+    """support of a value stored into a matrix"""
+    if getattr(v, 'is_sarr', False):
+        return v.nz
+    return lambda i, j: z3.BoolVal(True)
+
 def rng(i, n):
     return z3.And(i >= 0, i < n)
 
@@ -121,7 +147,7 @@ def np_qr(ex, st, node, args, kw):
     k = z3.If(p <= r, p, r)
     from .libz import kind_join, kind_of
     kd = kind_join(kind_of(a), 'real')
-    return (ZArr((p, k), kd), ZArr((k, r), kd))
+    return (SArr((p, k), kd, fresh_nz('nzQs')), SArr((k, r), kd, fresh_nz('nzRs')))
 
 def np_svd(ex, st, node, args, kw):
     a = args[0]
@@ -129,7 +155,7 @@ def np_svd(ex, st, node, args, kw):
     k = z3.If(p <= r, p, r)
     from .libz import kind_join, kind_of
     kd = kind_join(kind_of(a), 'real')
-    return (ZArr((p, k), kd), ZArr((k,), 'real'), ZArr((k, r), kd))
+    return (SArr((p, k), kd, fresh_nz('nzus')), ZArr((k,), 'real'), SArr((k, r), kd, fresh_nz('nzvs')))
 
 def np_norm(ex, st, node, args, kw):
     a = args[0]
@@ -166,6 +192,22 @@ def q_getitem(ex, st, node, base, key):
             oblige(ex, st, node, 'index', f'{ast.unparse(node)[:40]}: index in range', z3.And(k >= -zint(base.n), k < zint(base.n)))
             return base.a(z3.If(k < 0, k + base.n, k))
         raise Unsupported('index into integer array')
+    if getattr(base, 'is_sarr', False) and isinstance(key, tuple) and len(key) == 2:
+        plain = q_getitem(ex, st, node, ZArr(base.shape, base.kind), key)        # obligations + result shape
+        if getattr(plain, 'is_zarr', False) and plain.ndim == 2:
+            maps = []
+            for ax, k in enumerate(key):
+                if isinstance(k, IArr):
+                    maps.append(lambda t, k=k: k.a(t))
+                elif isinstance(k, slice):
+                    _, lo, _ = slice_len(k, base.shape[ax])
+                    maps.append(lambda t, lo=lo: t + lo)
+                else:
+                    maps = None; break
+            if maps:
+                f0, f1 = maps
+                return SArr(plain.shape, plain.kind, lambda i, j, b=base, f0=f0, f1=f1: b.nz(f0(i), f1(j)))
+        return plain
     if getattr(base, 'is_zarr', False):
         if not isinstance(key, tuple):
             key = (key,)
@@ -187,6 +229,27 @@ def q_getitem(ex, st, node, base, key):
     return z_getitem(ex, st, node, base, key)
 
 def q_setitem(ex, st, node, base, key, v):
+    if isinstance(base, MArr) and isinstance(key, slice) and (is_z(v) or isinstance(v, int)):
+        n = zint(base.n); lo, hi = zint(key.start), zint(key.stop)
+        oblige(ex, st, node, 'index', f'{ast.unparse(node)[:50]}: slice within bounds', z3.And(lo >= 0, hi <= n, lo <= hi))
+        return MArr(lambda c, b=base, lo=lo, hi=hi, v=zint(v): z3.If(z3.And(c >= lo, c < hi), v, b.a(c)), base.n, {})
+    if getattr(base, 'is_sarr', False) and isinstance(key, tuple) and len(key) == 2:
+        plain = q_setitem(ex, st, node, ZArr(base.shape, base.kind), key, v)      # index / shape / dtype obligations
+        conds = []; offs = []
+        for ax, k in enumerate(key):
+            if isinstance(k, slice):
+                _, lo, hi = slice_len(k, base.shape[ax])
+                conds.append(lambda t, lo=lo, hi=hi: z3.And(t >= lo, t < hi)); offs.append(lo)
+            elif isinstance(k, int) or is_z(k):
+                kk = zint(k); nn = zint(base.shape[ax]); kk = z3.If(kk < 0, kk + nn, kk)
+                conds.append(lambda t, kk=kk: t == kk); offs.append(kk)
+            else:
+                return plain
+        vz = nz_of(v) if getattr(v, 'is_zarr', False) and v.ndim == 2 else (lambda i, j: z3.BoolVal(True))
+        if isinstance(v, int) and v == 0:
+            vz = lambda i, j: z3.BoolVal(False)
+        c0, c1 = conds; o0, o1 = offs
+        return SArr(base.shape, base.kind, lambda i, j, b=base: z3.If(z3.And(c0(i), c1(j)), vz(i - o0, j - o1), b.nz(i, j)))
     if getattr(base, 'is_zarr', False) and is_z(v) and not isinstance(key, tuple) and isinstance(key, slice):
         n = zint(base.shape[0])
         oblige(ex, st, node, 'index', f'{ast.unparse(node)[:50]}: slice within bounds', z3.And(zint(key.start) >= 0, zint(key.stop) <= n, zint(key.start) <= zint(key.stop)))
@@ -234,8 +297,12 @@ def np_zeros_q(ex, st, node, args, kw):
     from .libz import np_zeros
     dt = kw.get('dtype')
     if isinstance(dt, IArrDtype):
-        return np_zeros(ex, st, node, args[:1], {})          # integer charge arrays: length only
-    return np_zeros(ex, st, node, args[:1], {'dtype': dt} if dt is not None else {})
+        z = np_zeros(ex, st, node, args[:1], {})
+        return MArr(lambda c: z3.IntVal(0), z.shape[0], {})  # integer charge array: all entries zero
+    z = np_zeros(ex, st, node, args[:1], {'dtype': dt} if dt is not None else {})
+    if getattr(z, 'is_zarr', False) and z.ndim == 2:
+        return SArr(z.shape, z.kind, lambda i, j: z3.BoolVal(False))
+    return z
 
 class IArrDtype:
     pass
@@ -279,9 +346,18 @@ def block_invariant(env, ex, st):
             return z3.Int(f'ghost_{name}')
         return zint(v)
     i1, j1 = val('i1'), val('j1')
-    return z3.And(D >= k, z3.Implies(k == 0, D == 0),
+    base = z3.And(D >= k, z3.Implies(k == 0, D == 0),
                   z3.Implies(k > 0, z3.And(D <= i1, D <= j1, 0 < i1, i1 <= m, 0 < j1, j1 <= n,
                                            q0.a(i1 - 1) == qis.a(k - 1), q1.a(j1 - 1) == qis.a(k - 1))))
+    # support part: the columns of the left factor / rows of the right factor filled so far are block sparse under the
+    # intermediate charges written so far, and nothing beyond the running dimension D has been written
+    left = env.get('Q', env.get('u')); right = env.get('R', env.get('v')); qi = env.get('qinterm', env.get('q'))
+    if getattr(left, 'is_sarr', False) and getattr(right, 'is_sarr', False) and isinstance(qi, IArr):
+        i, j, c = z3.Ints('i j c')
+        base = z3.And(base,
+                      z3.ForAll([i, c], z3.Implies(z3.And(rng(i, m), c >= 0, left.nz(i, c)), z3.And(c < D, q0.a(i) == qi.a(c)))),
+                      z3.ForAll([c, j], z3.Implies(z3.And(rng(j, n), c >= 0, right.nz(c, j)), z3.And(c < D, qi.a(c) == q1.a(j)))))
+    return base
 
 
 def run_contract(fn, with_tol, kind='complex'):
@@ -292,7 +368,7 @@ def run_contract(fn, with_tol, kind='complex'):
     m, n = z3.Ints('m n')
     q0f, q1f = fi('q0_'), fi('q1_')
     Q0, Q1 = IArr(q0f, m), IArr(q1f, n)
-    A0 = ZArr((m, n), kind); A0.name = 'A0'
+    A0 = SArr((m, n), kind, NZ, name='A0')
     i, j = z3.Ints('i j')
     requires = [m >= 1, n >= 1, z3.ForAll([i, j], z3.Implies(z3.And(rng(i, m), rng(j, n), NZ(i, j)), q0f(i) == q1f(j)))]
     solver = Solver()
@@ -353,16 +429,18 @@ def run_contract(fn, with_tol, kind='complex'):
                 cl = [('sizes_consistent', z3.And(zint(u.shape[0]) == m, zint(v.shape[1]) == n, zint(u.shape[1]) == zint(sv.shape[0]),
                                                   zint(v.shape[0]) == zint(sv.shape[0]), zint(qn_) == zint(sv.shape[0]))),
                       ('intermediate_dim_bound', z3.And(zint(sv.shape[0]) >= 0, zint(sv.shape[0]) <= z3.If(m <= n, m, n)))]
+                cl.append(('factors_block_sparse_under_intermediate_charges', sparse_post(u, v, q, q0f, q1f, m, n)))
             else:
                 Qm, Rm, q = ret
                 qn_ = q.n if isinstance(q, IArr) else q.shape[0]
                 cl = [('sizes_consistent', z3.And(zint(Qm.shape[0]) == m, zint(Rm.shape[1]) == n, zint(Qm.shape[1]) == zint(Rm.shape[0]), zint(qn_) == zint(Qm.shape[1]))),
                       ('intermediate_dim_bound', z3.And(zint(Qm.shape[1]) >= 1, zint(Qm.shape[1]) <= z3.If(m <= n, m, n)))]
+                cl.append(('factors_block_sparse_under_intermediate_charges', sparse_post(Qm, Rm, q, q0f, q1f, m, n)))
         except Exception as e:
             agg.setdefault('postcondition', []).append(None)
             continue
         for name, f in cl:
-            agg.setdefault(name, []).append(solver.implied([p for p in s.pc if is_z(p)], f, final=True))
+            agg.setdefault(name, []).append(None if f is None else solver.implied([p for p in s.pc if is_z(p)], f, final=True))
     for name, rs in agg.items():
         status = 'discharged' if all(r is True for r in rs) else 'refuted' if any(r is False for r in rs) else 'undecided'
         v = Verdict(name, 'Z', status, f'{len(rs)} return paths' + (' (needs native confirmation: quantified counter-model)' if status == 'refuted' else ''), 0, fn, 'ensures', 'z3')
@@ -373,6 +451,17 @@ def run_contract(fn, with_tol, kind='complex'):
         v.seconds = tot / max(1, len(out))
         v.name = f'{v.name} [entries: {kind}]'
     return out
+
+
+def sparse_post(left, right, q, q0f, q1f, m, n):
+    """every possibly non-zero entry of the returned factors connects equal charges: left[i, c] != 0 => q0[i] == q[c],
+    right[c, j] != 0 => q[c] == q1[j]   (is_qsparse(left, [q0, -q]) and is_qsparse(right, [q, -q1]))"""
+    if not (getattr(left, 'is_sarr', False) and getattr(right, 'is_sarr', False) and isinstance(q, IArr)):
+        return None
+    i, j, c = z3.Ints('i j c')
+    D = zint(q.n)
+    return z3.And(z3.ForAll([i, c], z3.Implies(z3.And(rng(i, m), rng(c, D), left.nz(i, c)), q0f(i) == q.a(c))),
+                  z3.ForAll([c, j], z3.Implies(z3.And(rng(c, D), rng(j, n), right.nz(c, j)), q.a(c) == q1f(j))))
 
 
 def K_retained(ex, st, node, args, kw):
